@@ -515,8 +515,10 @@ def _run_solver(cmd, text, timeout):
     return out, time.time() - t0
 
 
+_HERE = os.path.dirname(os.path.dirname(os.path.abspath(__file__)))
+_Z3 = os.path.join(_HERE, ".venv", "bin", "z3")          # z3 5.1.0, the z3-solver wheel's CLI
 SOLVERS = {
-    "z3": ["/usr/bin/z3", "-smt2"],
+    "z3": [os.environ.get("VF_Z3") or (_Z3 if os.path.exists(_Z3) else "/usr/bin/z3"), "-smt2"],
     "cvc5": ["cvc5", "--incremental", "--lang=smt2"],
 }
 
